@@ -55,6 +55,11 @@ CHECKS = {
    text="Results.DecodeResult / Block.DecodeRawBlock are executed on blocks written by the harness' reference writer: 1..2 columns drawn from 13 server type strings (incl. parameter-only and spacing variants), symbolic names and cells, 0..1 rows, against 0..2 targets drawn from 14 column kinds with blank or symbolic names, at a symbolic revision. On a nil error the solver decides: counts equal (or the documented no-target/no-rows case), names equal after blank filling, every (server,target) pair is in the harness' explicit compatible-or-open set, each target holds exactly its own column's cells (re-encoded bytes == wire bytes), inferable targets adopted precision / enum definition. On an error: a block whose pairs are all must-bind is only rejected for a name mismatch, and every target is empty or holds its own column's cells. A second harness checks blank-name filling and enforcement across two blocks.",
    ref="DESIGN.md §4 C18",
    note="bounds: <=2 columns (quick: all 13x14 pairs for one column, 4x4 kinds for two columns), names 1 byte, rows<=1; type strings outside the table and DateTime('zone') (tzdata) are outside"),
+ "C05": dict(
+   level="model_checking",
+   text="compress.Writer.Compress and compress.Reader.Read/readBlock are executed symbolically: (a) 1..2 frames of symbolic payloads, every method, every read size: decompressed bytes == payload and EOF afterwards; (b) a fully symbolic 25-byte header + tail: no allocation request above the documented 128 MiB limits, no panic; (c) every single-byte alteration (offset enumerated over the whole frame, new value symbolic) is rejected, with a *CorruptedDataErr carrying the stored checksum when the length fields are intact, and the Read after the failure hands out nothing; (d) every proper prefix of a frame is rejected.",
+   ref="DESIGN.md §4 C05",
+   note="bounds: payload <=3 (quick)/6 bytes, <=2 frames, read sizes 1..3/5; CityHash128 is an uninterpreted function with a per-path no-collision assumption; LZ4/LZ4HC/ZSTD are an opaque codec pair (levels, real bit streams outside); method None is interpreted byte for byte"),
 }
 
 NA = {
